@@ -335,7 +335,7 @@ def gate_cases(tier, seed):
     single = gt.get_gate_names_2qutrit_single_base_matrix()
     double = gt.get_gate_names_2qutrit_two_base_matrices()
     if tier == "quick":
-        names2 = rng.sample(single, 20) + rng.sample(double, 12)
+        names2 = rng.sample(single, 12) + rng.sample(double, 4)
     else:
         names2 = single + rng.sample(double, 600)
     for name in names2:
@@ -422,7 +422,7 @@ def job_gates(group, tier="quick", seed=0, part=0, parts=1):
             lo = el.generate_effective_lindbladian_from_gate_name(name, c, ids)
             return close(scipy.linalg.expm(lm), m, 1e-8) and close(lo.hs, lm) and lo.is_physical() and close(lo.to_gate().hs, m, 1e-8), "exp(L) != gate"
         t.guard("lindbladian-exponential==gate", entry, lmat, "exp(L) == HS matrix of the gate; the EffectiveLindbladian object is physical and to_gate() gives the gate")
-    return t.results(f"bounded: {len(cases)} (gate name, ids) entries of {group}" + (" (SAMPLED: 20 single + 12 two-base-matrix names)" if (group == '2qutrit' and tier == 'quick') else (" (all 198 single-base-matrix names, 600 SAMPLED two-base-matrix names of about 39k)" if group == '2qutrit' else "")))
+    return t.results(f"bounded: {len(cases)} (gate name, ids) entries of {group}" + (" (SAMPLED: 12 single + 4 two-base-matrix names)" if (group == '2qutrit' and tier == 'quick') else (" (all 198 single-base-matrix names, 600 SAMPLED two-base-matrix names of about 39k)" if group == '2qutrit' else "")))
 
 
 ACTIONS_1Q = [("x", "z0", "z1"), ("x", "x0", "x0"), ("y", "z0", "z1"), ("z", "x0", "x1"), ("z", "z0", "z0"), ("hadamard", "z0", "x0"), ("hadamard", "x0", "z0"),
